@@ -92,7 +92,7 @@ def damage(rng, c, lower):
 def streams(rng, tier):
     q = tier == "quick"
     out = []
-    for _ in range(4000 if q else 100000):
+    for _ in range(4000 if q else 300000):
         c = rand_wheel(rng); lower = rng.random() < 0.6
         fn = assemble(c, lower)
         out.append(Case("wheel", "f.wheel", [fn]))
@@ -152,6 +152,15 @@ def streams(rng, tier):
     for fn in ["foo-1.0.tar.gz", "foo-1.0.zip", "-1.0.zip", "foo-.zip", "foo.zip", ".zip", ".tar.gz", "-.zip", "a-b-1.0.tar.gz", "foo-1.0.tar.gz\n", "foo-1.0.tar.gz.zip",
                "foo-1.0.zip.tar.gz", "Foo.Bar-V1.0.zip", "foo-1.0-1.zip", "tar.gz", "a-1.tar.gz", "İ-1.zip", "K_-1.zip"]:
         out.append(Case("fixed", "f.sdist", [fn]))
+    # one character of every ASCII code and of the non-ASCII pool in each position class (ties the character tables of the model)
+    for ch in [chr(i) for i in range(128)] + g.NONASCII:
+        out.append(Case("char-sweep", "f.wheel", [ch + "-1-a-b-c.whl"])); out.append(Case("char-sweep", "f.wheel", ["a" + ch + "b-1-a-b-c.whl"]))
+        out.append(Case("char-sweep", "f.wheel", ["a-1-" + ch + "-a-b-c.whl"])); out.append(Case("char-sweep", "f.wheel", ["a-1-1" + ch + "x-a-b-c.whl"]))
+        out.append(Case("char-sweep", "f.wheel", ["a-1" + ch + "-a-b-c.whl"])); out.append(Case("char-sweep", "f.wheel", ["a-1-a" + ch + "-B-c.whl"]))
+        out.append(Case("char-sweep", "f.wheel", ["a-1-a-b-c.whl" + ch])); out.append(Case("char-sweep", "f.wheel", ["a-1-a-b-c.wh" + ch]))
+        out.append(Case("char-sweep", "f.sdist", [ch + "-1.zip"])); out.append(Case("char-sweep", "f.sdist", ["a-1" + ch + ".tar.gz"]))
+        out.append(Case("char-sweep", "f.sdist", ["a-1.zip" + ch])); out.append(Case("char-sweep", "f.sdist", ["a-1.tar.g" + ch]))
+        out.append(Case("char-sweep", "f.tag", ["a" + ch + "B-c-d"])); out.append(Case("char-sweep", "f.tageq", ["A" + ch, "b", "c", "a" + ch.lower(), "B", "C"]))
     for t in ["py3-none-any", "a-b", "a-b-c-d", "", "--", "-", "---", "a.b-c.d-e.f", "A.a-b-c", "..-.-.", "py3-none-any\n", "İ-K-é", "a.A.a-b-c"]:
         out.append(Case("fixed", "f.tag", [t])); out.append(Case("fixed-law", "law.f.tags", [t], kind="law"))
     return out
@@ -162,6 +171,14 @@ def compare(case, impl, model):
         # parse_tag documents no exception: a tag without exactly three dash-separated parts fails with a plain ValueError (unpacking)
         return None if impl == "!EXC:ValueError" else "model: tuple-unpacking failure; implementation: %r" % impl
     return None if impl == model else "implementation differs from model"
+
+
+def match_build_newline(case, impl, model):
+    """Proposed known finding (not registered): a build tag whose suffix contains a newline is accepted and silently truncated at the
+    newline, because the build-tag pattern is used with .match and '.' stops at a newline.
+    Instance = law.f.wheel case whose build argument contains a newline, answered with exactly the truncated-build complaint."""
+    return (case.cmd == "law.f.wheel" and len(case.args) == 7 and "\n" in case.args[2] and isinstance(impl, str) and impl.startswith("build (")
+            and repr(case.args[2].split("\n")[0][len(case.args[2]) - len(case.args[2].lstrip("0123456789")):]) in impl)
 
 
 def nontrivial(c, i):
